@@ -105,6 +105,12 @@ static long g_progress[NTHREADS];     /* relaxed, one writer each: one increment
 static const char *g_phase[NTHREADS]; /* relaxed pointer to string literal: the API call the thread is in, "pace" or "done" */
 static int g_tid[NTHREADS];           /* relaxed: kernel thread id (for /proc/self/task/<tid>/stat) */
 static long g_a_gap_frame = -1;       /* relaxed: frame of A's last time stamp gap (thread D aims at the countdown) */
+/* ambush: a request aimed into the first instructions of the vbi_decode() call of a frame with a time stamp gap
+ * (where the decoder starts the 40 frame countdown "unless one is running"): D arms, A announces the frame and
+ * waits a moment for D to spin, then both go.  All relaxed, harness-side pacing only. */
+static int g_amb_armed;
+static long g_amb_gapf = -1, g_amb_ready = -1, g_amb_go = -1;
+extern int c20_chswcd(vbi_decoder *vbi);      /* harness/c20_peek.c */
 static inline void progress(int t, const char *ph)
 {
 	__atomic_store_n(&g_phase[t], ph, __ATOMIC_RELAXED);
@@ -222,6 +228,9 @@ static struct {
 	/* switcher */
 	struct vf_rng rng_d;
 	struct span *sw; long n_sw, cap_sw;
+	uint8_t *sw_amb;                            /* request was an ambush on a gap frame */
+	/* channel-switch countdown as thread A finds it after each vbi_decode() call */
+	int8_t *cd; unsigned long *cd_tick; uint8_t *is_gap;
 } A;
 
 static void a_snapshot(int in_handler)
@@ -650,6 +659,14 @@ static void *a_decoder_thread(void *arg)
 			T.last_gap = f;
 			T.open[1] = T.open[2] = -1;
 			__atomic_store_n(&g_a_gap_frame, f, __ATOMIC_RELAXED);
+			A.is_gap[f] = 1;
+			if (__atomic_load_n(&g_amb_armed, __ATOMIC_RELAXED)) {
+				int spin;
+				__atomic_store_n(&g_amb_gapf, f, __ATOMIC_RELAXED);
+				for (spin = 0; spin < 4000 && __atomic_load_n(&g_amb_ready, __ATOMIC_RELAXED) != f; spin++)
+					sched_yield();
+				__atomic_store_n(&g_amb_go, f, __ATOMIC_RELAXED);
+			}
 		}
 		if (t > tmax) tmax = t;
 
@@ -657,6 +674,11 @@ static void *a_decoder_thread(void *arg)
 		A.dec[A.n_dec].c = tick();
 		vbi_decode(A.vbi, sl, n, t);
 		A.dec[A.n_dec].r = tick();
+		{
+			int cd = c20_chswcd(A.vbi);
+			A.cd[A.n_dec] = (int8_t)(cd < 0 ? -1 : cd > 100 ? 100 : cd);
+			A.cd_tick[A.n_dec] = tick();
+		}
 		A.n_dec++;
 		progress(0, "vbi_fetch_cc_page(A)");
 		a_snapshot(0);
@@ -712,7 +734,26 @@ static void *a_switch_thread(void *arg)
 			if (vf_chance(r, 1, 2)) { long n2 = gap + vf_range(r, 0, 38); if (n2 < next) next = n2; }
 		}
 		if (a_frame() < next) { usleep(100 + vf_below(r, 200)); continue; }
-		usleep(vf_below(r, 300));       /* land anywhere inside a frame */
+		if (vf_chance(r, 1, 3)) {
+			/* ambush the next frame with a time stamp gap (give up after 80 frames without one) */
+			long seen = __atomic_load_n(&g_amb_gapf, __ATOMIC_RELAXED), f = -1, give_up = a_frame() + 80;
+			volatile unsigned int k, nk = (unsigned int)vf_below(r, vf_chance(r, 1, 2) ? 300 : 3000);
+			__atomic_store_n(&g_amb_armed, 1, __ATOMIC_RELAXED);
+			while (!a_done() && a_frame() < give_up) {
+				f = __atomic_load_n(&g_amb_gapf, __ATOMIC_RELAXED);
+				if (f != seen) break;
+				usleep(40);
+			}
+			if (f != seen && f >= 0) {
+				int spin;
+				__atomic_store_n(&g_amb_ready, f, __ATOMIC_RELAXED);
+				for (spin = 0; spin < 2000000 && __atomic_load_n(&g_amb_go, __ATOMIC_RELAXED) != f; spin++) ;
+				for (k = 0; k < nk; k++) ;
+				A.sw_amb[A.n_sw] = 1;
+			}
+			__atomic_store_n(&g_amb_armed, 0, __ATOMIC_RELAXED);
+		} else
+			usleep(vf_below(r, 300));       /* land anywhere inside a frame */
 		progress(3, "vbi_channel_switched");
 		A.sw[A.n_sw].c = tick();
 		vbi_channel_switched(A.vbi, 0);
@@ -902,6 +943,45 @@ static long which_span(unsigned long t, const struct span *v, long n)
 }
 static int where_is(unsigned long t, const struct span *v, long n) { return which_span(t, v, n) >= 0; }
 
+/* A channel switch request is not lost.  vbi_channel_switched() sets the countdown to 1 ("reset with the next
+ * frame"); the decoding thread's accesses are: the time-stamp-gap branch (starts 40 unless a countdown runs), the
+ * decrement at the top of vbi_decode() (reset at 0), store_lop() (clears it on a matching header) and
+ * vbi_chsw_reset() (clears it).  Whatever the interleaving of the request with ONE vbi_decode() call, in every
+ * sequential order of these atomic steps the countdown is 0 after the first vbi_decode() call that STARTED after the
+ * request returned, provided that frame has no time stamp gap of its own and no other request came in between:
+ * the request was executed in the overlapped call or in this one, or cancelled by a matching header.  A countdown
+ * still running there is a request that was overwritten (check-then-act on the countdown in two critical sections:
+ * no data race, ThreadSanitizer is silent). */
+static void analyse_switch_requests(void)
+{
+	long i, k = 0, judged = 0, in_gap_dec = 0, amb = 0, skipped = 0;
+	for (i = 0; i < A.n_sw; i++) {
+		long j;
+		if (A.sw_amb && A.sw_amb[i]) amb++;
+		while (k < A.n_dec && A.dec[k].c <= A.sw[i].r) k++;
+		/* did it land inside the decode call of a gap frame? */
+		for (j = k - 1; j >= 0 && j >= k - 2; j--)
+			if (A.is_gap[j] && A.dec[j].c < A.sw[i].r && A.dec[j].r > A.sw[i].c) { in_gap_dec++; break; }
+		if (k >= A.n_dec) break;
+		if (A.is_gap[k]) { skipped++; continue; }
+		if (i + 1 < A.n_sw && A.sw[i + 1].c <= A.cd_tick[k]) { skipped++; continue; }
+		judged++;
+		if (A.cd[k] != 0) {
+			long g = k - 1;
+			while (g >= 0 && g > k - 3 && !A.is_gap[g]) g--;
+			REPORT("model:C20:switch-request-lost",
+			       "vbi_channel_switched() request #%ld (tick window [%lu,%lu]%s) returned before vbi_decode() of frame %ld began (tick %lu); after that call the channel switch countdown is %d instead of 0: "
+			       "the request was neither executed nor cancelled by a matching header, a countdown started by %s runs instead (no other request until tick %lu, frame %ld has no time stamp gap)",
+			       i, A.sw[i].c, A.sw[i].r, A.sw_amb && A.sw_amb[i] ? ", aimed at the start of a frame with a time stamp gap" : "", k, A.dec[k].c, A.cd[k],
+			       g >= 0 && A.is_gap[g] ? "the time stamp gap of the frame the request landed in" : "an earlier time stamp gap", A.cd_tick[k], k);
+		}
+	}
+	COUNT("a_switch_requests_judged_not_lost", judged);
+	COUNT("a_switch_requests_not_judged_gap_or_second_request", skipped);
+	COUNT("a_switch_requests_inside_decode_of_gap_frame", in_gap_dec);
+	COUNT("a_switch_requests_aimed_at_gap_frame", amb);
+}
+
 static int analyse_a(void)
 {
 	long overlap_fetch = 0, fetch_total = 0, fetch_in_handler_gap = 0, multi_cand = 0, got_new = 0, got_old = 0, blank_rule = 0;
@@ -996,6 +1076,7 @@ static int analyse_a(void)
 			if (o) { SIG("a:handover in-decode A>%s>A", seq); nontrivial = 1; }
 		}
 	}
+	if (A.cd) analyse_switch_requests();
 	COUNT("a_frames_decoded", A.n_dec);
 	COUNT("a_snapshots", A.n_snaps);
 	{
@@ -1088,6 +1169,11 @@ static int run_a(struct vf_rng *r)
 	A.fr[1] = xcalloc((size_t)A.cap_fr, sizeof **A.fr);
 	A.cap_sw = frames + 16;
 	A.sw = xcalloc((size_t)A.cap_sw, sizeof *A.sw);
+	A.sw_amb = xcalloc((size_t)A.cap_sw, 1);
+	A.cd = xcalloc((size_t)frames, sizeof *A.cd);
+	A.cd_tick = xcalloc((size_t)frames, sizeof *A.cd_tick);
+	A.is_gap = xcalloc((size_t)frames, 1);
+	g_amb_armed = 0; g_amb_gapf = g_amb_ready = g_amb_go = -1;
 
 	vf_phase("scenario-a");
 	progress(TM, "vbi_decoder_new");
@@ -1123,7 +1209,7 @@ static int run_a(struct vf_rng *r)
 		  A.n_dec, T.gaps, A.n_snaps, A.n_fr[0], A.n_fr[1], A.n_sw, A.ev_count[EVK_CAPTION], A.ev_count[EVK_TTX_PAGE],
 		  A.ev_count[EVK_NETWORK] + A.ev_count[EVK_NETWORK_ID], A.ev_count[EVK_TRIGGER], A.ev_count[EVK_ASPECT] + A.ev_count[EVK_PROG_INFO],
 		  T.headers, T.hdr_parity + T.hdr_nopgno, T.gap_den, T.ttx_den, T.dmg_den);
-	free(A.snaps); free(A.dec); free(A.capt); free(A.hand); free(A.hand_kind); free(A.fr[0]); free(A.fr[1]); free(A.sw);
+	free(A.snaps); free(A.dec); free(A.capt); free(A.hand); free(A.hand_kind); free(A.fr[0]); free(A.fr[1]); free(A.sw); free(A.sw_amb); free(A.cd); free(A.cd_tick); free(A.is_gap);
 	{ int q; for (q = 0; q < 8; q++) free(A.chg[q]); }
 	return p;
 }
